@@ -988,6 +988,10 @@ func (x *Exec) binop(st *State, v *ssa.BinOp) Value {
 					n = hy.BitLen()
 				}
 				hi = new(big.Int).Sub(pow2(uint(n)), big1)
+				if !k.signed && hi.Cmp(k.hi()) > 0 {
+					// the operands are values of the type, whatever their computed bounds say
+					hi = k.hi()
+				}
 			}
 		}
 		st.assumeBound(x, r, lo, hi)
